@@ -375,6 +375,15 @@ where
                 .annotations()
                 .filter_all(annotations.deref().clone(), key.rootstore())
                 .test(),
+            Filter::Keys(keys, FilterMode::Any, _) => keys.contains(&key.fullhandle()),
+            Filter::BorrowedKeys(keys, FilterMode::Any, _) => keys.contains(&key.fullhandle()),
+            Filter::Annotation(annotation, SelectionQualifier::Normal, _) => {
+                key.annotations().filter_handle(*annotation).test()
+            }
+            Filter::AnnotationData(set_handle, data_handle, _) => {
+                key.set().handle() == *set_handle
+                    && key.data().any(|data| data.handle() == *data_handle)
+            }
             Filter::Keys(_, FilterMode::All, _) => {
                 unreachable!("not handled by this iterator but by FilterAllIter")
             }
